@@ -199,6 +199,38 @@ def canon_state(*roots, prefix="joserfc"):
     return (fx, canon_modules(prefix, ids))
 
 
+def _hidden_state(f, ids):
+    """State a function carries outside any namespace: mutable default arguments, and the fill level of a memoising wrapper."""
+    import types
+    if isinstance(f, (classmethod, staticmethod)):
+        f = f.__func__
+    elif isinstance(f, property):
+        f = f.fget
+    out = []
+    if hasattr(f, "cache_info"):
+        try:
+            out.append(("cache", f.cache_info().currsize))
+        except Exception:  # noqa
+            pass
+        f = getattr(f, "__wrapped__", f)
+    if not isinstance(f, types.FunctionType):
+        return tuple(out)
+    for d in (f.__defaults__ or ()):
+        if isinstance(d, (dict, list, set, bytearray)):
+            out.append(("default", canon_obj(d, ids=ids)))
+    for k, d in sorted((f.__kwdefaults__ or {}).items()):
+        if isinstance(d, (dict, list, set, bytearray)):
+            out.append(("kwdefault", k, canon_obj(d, ids=ids)))
+    for c in (f.__closure__ or ()):
+        try:
+            d = c.cell_contents
+        except ValueError:
+            continue
+        if isinstance(d, (dict, list, set, bytearray)):
+            out.append(("closure", canon_obj(d, ids=ids)))
+    return tuple(out)
+
+
 def canon_modules(prefix="joserfc", ids=None):
     """Snapshot of every module-level and class-level mutable of the library."""
     out = []
@@ -219,13 +251,19 @@ def canon_modules(prefix="joserfc", ids=None):
                     continue
                 attrs = []
                 for ak, av in sorted(vars(v).items()):
+                    hidden = _hidden_state(av, ids)
+                    if hidden:
+                        attrs.append((ak, "hidden", hidden))
                     if ak.startswith("__") or isinstance(av, (types.FunctionType, classmethod, staticmethod, property)):
                         continue
                     if type(av).__name__ in ("cached_property", "member_descriptor", "getset_descriptor", "_abc_data"):
                         continue
                     attrs.append((ak, canon_obj(av, ids=ids)))
                 out.append((name, k, "class", tuple(attrs)))
-            elif isinstance(v, types.FunctionType):
+            elif isinstance(v, types.FunctionType) or hasattr(v, "cache_info"):
+                hidden = _hidden_state(v, ids)
+                if hidden:
+                    out.append((name, k, "hidden", hidden))
                 continue
             else:
                 if getattr(type(v), "__module__", "").startswith("typing") or k in ("annotations",):
